@@ -689,10 +689,14 @@ func (p *pegParser) litMatcher() (*expr, *pegError) {
 		// pigeon rejects the grammar (e.g. a single-quoted literal must hold exactly one character)
 		return unsupported("%s: invalid string literal %s", p.where(start), raw), nil
 	}
+	// pigeon's builder: want = strconv.Quote(lit.Val) + "i"? (of the literal as written), val is
+	// lower-cased for an ignore-case literal
+	want := strconv.Quote(val)
 	if ignore {
+		want += "i"
 		val = strings.ToLower(val)
 	}
-	return &expr{kind: kLit, val: []rune(val), ignoreCase: ignore}, nil
+	return &expr{kind: kLit, val: []rune(val), ignoreCase: ignore, want: want, hasWant: true}, nil
 }
 
 // charClass scans `[...]i?` and decomposes it like ast.CharClassMatcher.parse.
@@ -727,6 +731,9 @@ func (p *pegParser) charClass() (*expr, *pegError) {
 		e.ignoreCase = true
 		p.pos++
 	}
+	// pigeon: ast.NewCharClassMatcher(pos, string(c.text)) keeps the whole source text of the
+	// class (brackets and the optional `i` included) as Val, which the builder prints as `val:`
+	e.want, e.hasWant = p.src[start:p.pos], true
 	if strings.HasPrefix(raw, "^") {
 		e.inverted = true
 		raw = raw[1:]
